@@ -996,6 +996,7 @@ QAttr(s, q, k) ==
            \o (IF HasMarketId(s, o.mid) THEN MarketById(s, o.mid).denom ELSE "?") \o "|" \o ToString(o.ask)
            \o "|" \o BoolStr(o.dar) \o "|" \o (IF o.exp.set THEN ToString(o.exp.t) ELSE "none")
     [] OTHER -> "?"
+CoinStr(c) == IF ~c.set THEN "none" ELSE c.denom \o ":" \o ToString(c.amt)
 C17_AttrsOK(s, x) ==
   ("attrs" \in DOMAIN x /\ ~x.err) => \A i \in DOMAIN x.attrs : x.attrs[i].v = QAttr(s, x.q, x.attrs[i].k)
 
@@ -1046,6 +1047,23 @@ C17_SingleOK(s, x) ==
          ~x.err /\ \E p \in s.projects :
             /\ p.id = x.id /\ p.admin = x.admin /\ p.ref = x.ref
             /\ HasClassKey(s, p.ck) /\ ClassByKey(s, p.ck).id = x.class_id
+    \* parameter-style queries: a value (v) or a set of items
+    [] x.q = "Param" ->
+         /\ ~x.err
+         /\ CASE x.name = "ClassFee"  -> x.v = CoinStr(s.classfee)
+              [] x.name = "BasketFee" -> x.v = CoinStr(s.basketfee)
+              [] x.name = "Allowlist" -> x.v = BoolStr(s.allowlist)
+              [] x.name = "BridgeChains" -> NoDupSeq(x.items) /\ SeqToSet(x.items) = s.chains
+              [] x.name = "Creators"     -> NoDupSeq(x.items) /\ SeqToSet(x.items) = s.creators
+              [] x.name = "CreditTypes"  ->
+                   /\ NoDupSeq(x.items)
+                   /\ SeqToSet(x.items) = {t.abbr \o "|" \o t.name \o "|" \o t.unit \o "|" \o ToString(t.prec) : t \in s.ctypes}
+              [] OTHER -> TRUE
+    [] x.q = "Basket" ->
+         /\ ~x.err /\ HasBasket(s, x.denom)
+         /\ x.v = QAttr(s, "Baskets", x.denom)
+         /\ NoDupSeq(x.items)
+         /\ SeqToSet(x.items) = {y.cid : y \in {z \in s.bclasses : z.bid = BasketByDenom(s, x.denom).id}}
     [] OTHER -> TRUE
 
 =============================================================================
